@@ -133,10 +133,10 @@ class Gen:
             pool = [c for c in s.valpool if c not in s.D and c not in BL] + [c for c in BL if c not in s.D]
         for _ in range(200):
             t = rtext(r, pool, 1, 8).strip(BL)
-            if t == "" or t[0] == '[' or t[0] in s.C:
+            if t == "" or t[0] == '[' or t[0] in s.C or (s.join and t[0] == '"'):
                 continue
-            if r.random() < 0.12 and not s.python:
-                t = '"' + t           # a quoted text that starts on a continuation line
+            if r.random() < 0.12 and not s.python and not s.join:
+                t = '"' + t           # a quoted text that starts on a continuation line (the JOIN grammar has unquoted values only)
             return t
         return "w"
 
